@@ -26,7 +26,7 @@ func init() {
 				{Name: "sort-only-when-dirty", File: "remote_list.go", Old: "\t\tr.unlockedCollect()\n\t\tr.shouldRebuild = false\n\t}\n\n\t// Always re-sort, preferredRanges can change via HUP\n\tr.unlockedSort(preferredRanges)\n", New: "\t\tr.unlockedCollect()\n\t\tr.shouldRebuild = false\n\t\tr.unlockedSort(preferredRanges)\n\t}\n", Rule: "C37.rebuild"},
 				{Name: "flag-cleared-without-collect", File: "remote_list.go", Old: "\tif r.shouldRebuild {\n\t\tr.unlockedCollect()\n\t\tr.shouldRebuild = false\n\t}\n", New: "\tif r.shouldRebuild && len(r.cache) > 0 {\n\t\tr.unlockedCollect()\n\t}\n\tr.shouldRebuild = false\n", Rule: "C37.rebuild"},
 				{Name: "foreach-ignores-preferred-ranges", File: "remote_list.go", Old: "func (r *RemoteList) ForEach(preferredRanges []netip.Prefix, forEach forEachFunc) {\n\tr.Rebuild(preferredRanges)", New: "func (r *RemoteList) ForEach(preferredRanges []netip.Prefix, forEach forEachFunc) {\n\tr.Rebuild(nil)", Rule: "C37.rebuild"},
-				{Name: "prepend-does-not-mark-dirty", File: "remote_list.go", Old: "func (r *RemoteList) unlockedPrependV4(ownerVpnIp netip.Addr, to *V4AddrPort) {\n\tr.shouldRebuild = true\n", New: "func (r *RemoteList) unlockedPrependV4(ownerVpnIp netip.Addr, to *V4AddrPort) {\n", Rule: "C37.dirty"},
+				{Name: "learned-address-does-not-mark-dirty", File: "remote_list.go", Old: "func (r *RemoteList) unlockedSetLearnedV4(ownerVpnIp netip.Addr, to *V4AddrPort) {\n\tr.shouldRebuild = true\n", New: "func (r *RemoteList) unlockedSetLearnedV4(ownerVpnIp netip.Addr, to *V4AddrPort) {\n", Rule: "C37.dirty"},
 				{Name: "block-remote-does-not-mark-dirty", File: "remote_list.go", Old: "\t// Mark the next interaction must recollect/dedupe\n\tr.shouldRebuild = true\n}", New: "}", Rule: "C37.dirty"},
 				{Name: "dns-change-not-announced", File: "remote_list.go", Old: "\t\t\t\t\tr.ips.Store(&netipAddrs)\n\t\t\t\t\tonUpdate()\n", New: "\t\t\t\t\tr.ips.Store(&netipAddrs)\n", Rule: "C37.dns-dirty"},
 				{Name: "collect-keeps-previous-list", File: "remote_list.go", Old: "\taddrs := r.addrs[:0]\n", New: "\taddrs := r.addrs\n", Rule: "C37.collect"},
